@@ -140,7 +140,11 @@ func firstDiff(a, b []string) int {
 		if strings.HasPrefix(a[i], "~") {
 			continue // the implementation's output is not comparable (e.g. unreliable wall-clock timing)
 		}
-		if i >= len(b) || a[i] != b[i] {
+		x := a[i]
+		if j := strings.Index(x, " ~"); j >= 0 {
+			x = x[:j] // an annotation for the oracle, not part of the answer
+		}
+		if i >= len(b) || x != b[i] {
 			return i
 		}
 	}
